@@ -486,3 +486,8 @@ func c07BRun(c c07BCase) (v vVerdict) {
 func mathFloat32bits(x float32) uint32 { return math.Float32bits(x) }
 
 func TestVerif_C07B(t *testing.T) { vCheck(t, "C07B", c07BGen, c07BRun) }
+
+// C07C: the flush guarantee as the acquisition threads see it (DataPublisher.Flush over the real LJH 2.2 / LJH 3 / OFF writers on
+// regular files): the C05 histories of publish / flush / pause / unpause, where every Flush is followed by an independent decode of
+// the files that must hold every record accepted so far.
+func TestVerif_C07C(t *testing.T) { vCheck(t, "C07C", c05Gen, c05Run) }
